@@ -1527,6 +1527,17 @@ func (w *World) DeepCheck() error {
 			err = w.CmpMap(c.Map, c)
 		} else {
 			err = w.CmpArray(c.Arr, c)
+			if n := len(c.Elems); err == nil && n >= 2 {
+				// the tail read as a read-only range: a range's first slab is found by its own positional descent
+				var got []atree.Value
+				s := n / 2
+				err = c.Arr.IterateReadOnlyRange(uint64(s), uint64(n), func(v atree.Value) (bool, error) { got = append(got, v); return true, nil })
+				if err != nil {
+					err = violf("array c%d IterateReadOnlyRange(%d,%d): %v", c.Serial, s, n, err)
+				} else {
+					err = w.cmpSeq(fmt.Sprintf("array c%d IterateReadOnlyRange(%d,%d)", c.Serial, s, n), got, c.Elems[s:])
+				}
+			}
 		}
 		if err != nil {
 			return err
